@@ -81,7 +81,8 @@ def finish_cmd(cmd, r=None):
 
 SUFFIXES_TARGET = ['.py'] * 9 + ['.pyw'] * 2
 SUFFIXES_OTHER = ['.PY', '.pyi', '.pyc', '.pyx', '.py~', '.txt', '', '.py.bak', '.pyw.orig', '.md', '.Py', '.pyww', '.cpy']
-BASES = ['a', 'b', 'mod', 'util', 'main', 'test_x', '__init__', 'conf', 'z9', 'data', 'x.y', 'py', 'pyw', 'setup']
+BASES = ['a', 'b', 'mod', 'util', 'main', 'test_x', '__init__', 'conf', 'z9', 'data', 'x.y', 'py', 'pyw', 'setup',
+         'my mod', 'm\u00f3dulo', '-dash', 'a b.c', '\u65e5\u672c']
 
 
 def gen_tree(r, max_files=12):
@@ -180,7 +181,8 @@ def gen_tree(r, max_files=12):
 def rel_to_cwd(rel, cwd, r=None, absolute=False):
     if absolute:
         return '{ROOT}/' + rel
-    return posixpath.relpath(rel, cwd or '.')
+    p = posixpath.relpath(rel, cwd or '.')
+    return './' + p if p.startswith('-') else p      # a leading dash would be read as an option
 
 
 def respell(r, path, is_dir, dirs):
